@@ -1164,7 +1164,7 @@ theorem absenceSet_fstate_off (time : Nat) (l : Live) (f : Nat) (hf : f < m.nF) 
 /-- READY tasks hold nothing (a consequence of `HoldWorking`) -/
 def ReadyEmpty (l : Live) : Prop := ∀ t, l.tstate t = .ready → l.allocW t = [] ∧ l.allocF t = []
 
-theorem HoldWorking.readyEmpty {l : Live} (h : HoldWorking l) : ReadyEmpty l := by
+theorem readyEmpty_of_holdWorking {l : Live} (h : HoldWorking l) : ReadyEmpty l := by
   intro t ht
   constructor
   · apply Classical.byContradiction
@@ -1231,5 +1231,60 @@ theorem preCost_alloc_off (p : Params) (s : St) (h : p.absence.contains s.time =
   · show (chkWorking m _).allocF = _; rw [chkWorking_allocF]; rfl
   · show (chkWorking m _).wasg = _; rw [chkWorking_wasg]; rfl
   · show (chkWorking m _).fasg = _; rw [chkWorking_fasg]; rfl
+
+/-! ### the finish gate after `__update` -/
+
+theorem finishGate_congr {a b : Nat → TS}
+    (h : ∀ t, (b t = .finished ↔ a t = .finished) ∧ (b t).started = (a t).started) (t : Nat) :
+    finishGate m b t = finishGate m a t := by
+  unfold finishGate
+  congr 1
+  funext ⟨p, d⟩
+  cases d
+  · rfl
+  · rfl
+  · dsimp only; rw [Bool.eq_iff_iff]; simp only [beq_iff_eq]; exact (h p).1
+  · exact (h p).2
+
+theorem chkReady_started (l : Live) (t : Nat) :
+    ((chkReady m l).tstate t).started = (l.tstate t).started := by
+  rw [chkReady_tstate]
+  split
+  · rename_i h
+    simp only [Bool.and_eq_true, beq_iff_eq] at h
+    rw [h.1.2]; rfl
+  · rfl
+
+/-- READY marking does not affect the finish gate: the gate after the whole `__update` block is
+the gate after `check_state(FINISHED)` -/
+theorem update_gate (time : Nat) (l : Live) (t : Nat) :
+    finishGate m (update m time l).tstate t = finishGate m (chkFinished m l).tstate t := by
+  apply finishGate_congr
+  intro t'
+  refine ⟨update_finished_iff time l t', ?_⟩
+  rw [update_tstate, chkReady_started, chkRemove_tstate]
+  rfl
+
+/-! ### arithmetic -/
+
+theorem ite_sub_ite (c : Prop) [Decidable c] (x d : Rat) :
+    (if c then x - d else x) = x - (if c then d else 0) := by
+  split
+  · rfl
+  · grind
+
+/-! ### display rule and the start of a run -/
+
+theorem showT_finished_iff (wk : Bool) (s : TS) : showT wk s = .finished ↔ s = .finished := by
+  cases wk <;> cases s <;> simp [showT]
+
+theorem enter_live (p : Params) (s : St) :
+    (enter m p s).live = (initProject m p.initState p.initLog s).live := rfl
+
+/-- a run with `initState = initLog = true` starts with every non-exempt task not FINISHED -/
+theorem enter_not_finished (p : Params) (s : St) (hs : p.initState = true) (t : Nat)
+    (ht : t < m.nT) (hex : ¬ exempt m t) : (enter m p s).live.tstate t ≠ .finished := by
+  rw [enter_live, hs]
+  exact initProject_tstate _ s t ht hex
 
 end PDesy.Perform
